@@ -835,7 +835,7 @@ check_fbp(const json& c)
   int data_views = 0, data_tmin = 0, data_tmax = 0;
   try
     {
-      shared_ptr<Scanner> sc = vg::make_scanner(scanner_spec(2 * views * m, segs + 1, c.value("tilt", false), c.value("tof", 1) > 1));
+      shared_ptr<Scanner> sc = vg::make_scanner(scanner_spec(2 * views * m, segs + 1, c.value("tilt", false), c.value("tof", 1)));
       if (sc->check_consistency() != Succeeded::yes)
         return Result::reject("scanner inconsistent");
       shared_ptr<ProjDataInfo> pdi(
